@@ -724,7 +724,7 @@ func checkRestartPersisted(r *Run, p *Prog) {
 		if ex.Return == nil || len(ex.Return.Results) == 0 {
 			return ex.Return == nil
 		}
-		return isNilIdent(open, ex.Return.Results[len(ex.Return.Results)-1])
+		return mayReturnNilError(open, ex.Return)
 	}
 	// (a) persisted state found => restarted on every success path
 	found := c.EdgesEstablishing(func(atom ast.Expr, val bool) bool {
